@@ -314,8 +314,22 @@ def task_map_invariant(v, sv):
     ]
 
 
+def ingest_counter_invariant(v, sv):
+    """C12/C02: the reported number of machines on ingest is the true one, up to ingest allocations that were spawned in
+    this timestep and have not started yet (S3: they start before anything else can observe the state)"""
+    k = CV(v)
+    pcnt, pn = sv.pending('pend_ingest')
+    return [('pending-ingest-allocations-hold-ingest-machines', Q([('m', I)], lambda m: z3.And(
+        z3.Select(pcnt, m) >= 0, z3.Select(pcnt, m) <= k.ing.count(m)))),
+            ('C12-C02-ingest-counter-true', k.u['ingest'].t == z3.ToReal(k.ing.n - pn))]
+
+
+REG.spawn_ghosts.append(('Cluster.allocate_task_to_cluster', lambda eng, args: eng.truth(args['ingest']), 'pend_ingest',
+                         lambda eng, args: args['machine'].t))
+
+
 def cluster_invariant(v, sv):   # noqa: F811  (extends the definition above)
-    return pool_invariant(v, sv) + counter_invariant(v, sv) + task_map_invariant(v, sv)
+    return pool_invariant(v, sv) + counter_invariant(v, sv) + task_map_invariant(v, sv) + ingest_counter_invariant(v, sv)
 
 
 REG.invariants['Cluster'] = cluster_invariant
@@ -355,7 +369,8 @@ def _atc_y(c):
     k = CV(v.self)
     t, m = v.task, v.machine.t
     return [('task-is-running', k.run.count(t) == 1),
-            ('C01-machine-held-by-this-task', z3.If(v.ingest.t, k.ing.count(m) > 0, k.occ.count(m) > 0)),
+            ('C01-machine-held-by-this-task', z3.If(v.ingest.t, z3.And(k.ing.count(m) > 0, z3.Select(v.pending('pend_ingest')[0], m) == 0),
+                                                    k.occ.count(m) > 0)),
             ('one-step-wait', v['_ydelay'].t == 1)]
 
 
@@ -448,3 +463,25 @@ REG.contract('Cluster.provision_batch_resources', params={'size': 'int', 'name':
              props=['C02', 'C09'])
 REG.loop('Cluster.provision_batch_resources', 0, inv=_pbr_inv, modifies_locals=['m'],
          modifies=['self._resources.available', 'self._resources.idle'], props=['C02', 'C09'])
+
+
+# ---- Cluster.run: the per-timestep housekeeping loop
+REG.contract('Cluster.run', yields={0: lambda c: [('one-step-wait', c.n['_ydelay'].t == 1)]},
+             modifies=['self.events', 'self._usage_data.ingest', 'self._ingest.demand'], props=['C02', 'C12'])
+
+
+def _cluster_to_df(c):
+    k = CV(c.o.self)
+    r = c.result
+    return [('C12-machines-not-running-a-task', r['available_resources'].t == k.total.t - z3.ToReal(k.run.n)),
+            ('C12-machines-on-ingest', r['ingest_resources'].t == z3.ToReal(k.ing.n - c.o.pending('pend_ingest')[1])),
+            ('C12-running-tasks', r['running_tasks'].t == z3.ToReal(k.run.n)),
+            ('C12-finished-tasks', r['finished_tasks'].t == z3.ToReal(CARDTRUE(k.fin.keys, k.fin.vals))),
+            ('C12-live-reservations', r['provisioned_observations'].t == z3.ToReal(k.idle.nk))]
+
+
+REG.contract('Cluster.to_df', ensures=_cluster_to_df, props=['C12'])
+REG.contract('Cluster.get_machine_from_id', params={'id': 'str'}, fix={'c': 'default'},
+             ensures=lambda c: [('is-the-registered-machine', c.result.t == z3.Select(c.o.self.machine_ids.vals, c.o.id.t))],
+             raises={'KeyError': dict(when=lambda c: z3.Not(z3.Select(c.o.self.machine_ids.keys, c.o.id.t)))},
+             result='ref:Machine', props=['C17'])
